@@ -671,6 +671,33 @@ func (c *Ctx) notSelectedEdges(f *ssa.Function) map[engine.Edge]bool {
 				}
 				out[engine.Edge{From: b, Succ: nilIx}] = true
 			}
+		case *ssa.Phi:
+			// `sel := s.state != nil && s.state.IsSelected(); if sel {…}`: every incoming value is the
+			// constant false or an IsSelected()/Selected() result, so the false edge means "not selected"
+			allSel := len(t.Edges) > 0
+			for _, e := range t.Edges {
+				switch x := e.(type) {
+				case *ssa.Const:
+					if bv, ok := engine.ConstBool(x); !ok || bv {
+						allSel = false
+					}
+				case *ssa.Call:
+					sc := x.Call.StaticCallee()
+					if sc == nil {
+						allSel = false
+						break
+					}
+					n := c.name(sc)
+					if n != "internal/state.(*State).IsSelected" && n != "internal/state.(*Mailbox).Selected" {
+						allSel = false
+					}
+				default:
+					allSel = false
+				}
+			}
+			if allSel {
+				out[engine.Edge{From: b, Succ: falseIx}] = true
+			}
 		case *ssa.Parameter:
 			// the isSameMBox parameter of the AppendOnlyMailbox callback
 			sig := f.Signature
@@ -779,7 +806,59 @@ func c05issued(c *Ctx, roots []*ssa.Function) {
 	P, R := c.P, c.R
 	ei := c.fn("R05.5", "internal/state.(*Mailbox).ExpungeIssued")
 	n := 0
+	// the OK may be built by a helper of the session package that the handler calls
+	var expanded []*ssa.Function
+	seenRoot := map[*ssa.Function]bool{}
+	okVia := map[*ssa.Function]bool{}
 	for _, root := range roots {
+		if root == nil {
+			continue
+		}
+		if !seenRoot[root] {
+			seenRoot[root] = true
+			expanded = append(expanded, root)
+		}
+		for _, cs := range engine.Calls(root) {
+			g := cs.Common().StaticCallee()
+			if g == nil || len(g.Blocks) == 0 || engine.RelPkg(P.OwnPkgPath(g)) != "internal/session" || strings.HasPrefix(g.Name(), "handle") {
+				continue
+			}
+			if seenRoot[g] {
+				if okVia[g] {
+					okVia[root] = true
+				}
+				continue
+			}
+			hasOK := false
+			for _, b := range g.Blocks {
+				for _, in := range b.Instrs {
+					if call, ok := in.(*ssa.Call); ok && isTaggedCall(call, "Ok") {
+						hasOK = true
+					}
+				}
+			}
+			if hasOK {
+				seenRoot[g] = true
+				okVia[g] = true
+				expanded = append(expanded, g)
+				okVia[root] = true
+			}
+		}
+		for _, b := range root.Blocks {
+			for _, in := range b.Instrs {
+				if call, ok := in.(*ssa.Call); ok && isTaggedCall(call, "Ok") {
+					okVia[root] = true
+				}
+			}
+		}
+	}
+	covered := 0
+	for _, root := range roots {
+		if root != nil && okVia[root] {
+			covered++
+		}
+	}
+	for _, root := range expanded {
 		if root == nil || ei == nil {
 			continue
 		}
@@ -838,7 +917,8 @@ func c05issued(c *Ctx, roots []*ssa.Function) {
 			}
 		}
 	}
-	R.Min("R05.5", "tagged OKs in handleFetch/Store/Search", n, 3)
+	_ = n
+	R.Min("R05.5", "handlers among handleFetch/Store/Search whose tagged OK was found", covered, 3)
 	if ei != nil {
 		resFld := c.fieldOf("internal/state", "State", "res")
 		reads, tests := false, len(typeTests(ei, "internal/state", "expunge")) > 0
